@@ -198,6 +198,12 @@ func (w *World) Input(text string) casket.Input {
 	return capInput{w: w, body: []byte(text), path: "Casketfile.sim"}
 }
 
+// InputAt: the same, for a Casketfile that lies at the given place (a Casketfile inside its
+// site's root is hidden from the site's visitors).
+func (w *World) InputAt(text, path string) casket.Input {
+	return capInput{w: w, body: []byte(text), path: path}
+}
+
 // NewWorld prepares the process for one run.
 func NewWorld(c *sim.Ctl) *World {
 	if n := len(casket.Instances()); n != 0 {
